@@ -82,17 +82,18 @@ def c07_3(R):
         if blk.cleanup or blk.term.kind != "switch" or blk.idx not in b.live_blocks():
             continue
         c, neg = switch_cond(b, blk.term)
-        if c.kind == "bin" and c.op == "Lt" and c.b.kind == "const" and c.b.scalar == 0:
-            ta = trace(b, c.a)
-            if ta.kind == "call" and call_matches(ta.root[1], ("Sub::sub",)):
-                be = bool_edges(b, blk.idx)
-                dup_targets.append(be[0] if neg else be[1])
+        for operand_truth in (True, False):
+            o = ordering(c, operand_truth)
+            # (seq_nr - expected) < 0 : an already consumed packet
+            if o is not None and o[2] and o[1].kind == "const" and o[1].scalar == 0:
+                ta = trace(b, o[0])
+                in_data_arm = any(d_.endswith("=ST_DATA") for c_, t_, d_, *_ in controlling(b, blk.idx))
+                if in_data_arm and ta.kind == "call" and call_matches(ta.root[1], ("Sub::sub",)):
+                    be = bool_edges(b, blk.idx)
+                    dup_targets.append(be[1] if (operand_truth != neg) else be[0])
         if c.kind == "call" and call_matches(c.call, ("stream_rx::UserRx::assembler_empty",)):
             be = bool_edges(b, blk.idx)
             # the edge on which assembler_empty() is false
-            ooo_targets.append(be[1] if neg else be[0])
-        if c.kind in ("call",) and c.call.dest is not None and b.local_name(c.call.dest.local) == "assembler_was_empty":
-            be = bool_edges(b, blk.idx)
             ooo_targets.append(be[1] if neg else be[0])
         if c.kind == "multi" or c.kind == "var":
             pass
@@ -109,7 +110,9 @@ def c07_3(R):
                 dd = b.unique_def(l)
                 if isinstance(dd, Stmt) and dd.rv.kind == "use" and dd.rv.ops[0].place is not None:
                     l = dd.rv.ops[0].place.local
-                if b.local_name(l) == "assembler_was_empty":
+                dl = b.unique_def(l)
+                # the snapshot `let x = self.user_rx.assembler_empty()` taken before add_remove, whatever it is called
+                if isinstance(dl, Term) and call_matches(dl, ("stream_rx::UserRx::assembler_empty",)):
                     be = bool_edges(b, blk.idx)
                     ooo_targets.append(be[1])  # !was_empty == true
     dt_fin = []
@@ -120,6 +123,7 @@ def c07_3(R):
             c, var = variant_of_edge(b, blk.term, lab)
             if c is not None and var == "ST_FIN" and c.trace.kind == "call" and call_matches(c.trace.root[1], ("raw::UtpHeader::get_type",)) and not c.place.fields:
                 fin_targets.append(tgt)
+    R.floor("out-of-order / gap-fill trigger edges (assembler non-empty after, or before, add_remove)", len(set(ooo_targets)), 2)
     for name, targets, need_ack in (("duplicate", dup_targets, False), ("out-of-order/gap-fill", ooo_targets, True), ("fin", fin_targets, False)):
         if not targets:
             R.fail([PIM, "trigger-anchor-missing", name], "could not locate the %s trigger in process_incoming_message (anchor drift)" % name, where=b.where(), instance="forced-ack:" + name)
@@ -196,7 +200,7 @@ def c07_4(R):
         if isinstance(it, Term) and it.kind == "call" and it.dest.local == 0 and call_matches(it, ("PartialOrd::le", "PartialOrd::ge", "PartialOrd::lt", "PartialOrd::gt")):
             a, c = trace(te, it.args[0]), trace(te, it.args[1])
             shape = "%s(%s,%s)" % (it.callee.split("::")[-1], a.describe().split(".")[-1], c.describe().split(":")[-1])
-    if shape in ("le(expires_at,now)", "ge(now,expires_at)"):
+    if shape in ("le(expires_at,param#2)", "ge(param#2,expires_at)"):  # expired(&self, now)
         R.ok("expired<=>expires_at<=now", te.name, shape)
     else:
         R.fail([te.name, "expired-shape", str(shape)], "Timer::expired is no longer `expires_at <= now` (%s)" % shape, where=te.where(), instance="expired<=>expires_at<=now")
